@@ -29,7 +29,8 @@ pub enum Kind {
         #[serde(default)]
         paged: Option<Vec<usize>>,
         /// 1 = through the search() convenience call (not paged); 2 = the stream is dropped after a timeout
-        /// without finish() - the timed-out id must become reusable all the same
+        /// without finish() - the timed-out id must become reusable all the same; 3 = the timeout is not set with
+        /// with_timeout() but by a user adapter inside its start() (not paged)
         #[serde(default)]
         mode: u8,
     },
@@ -98,7 +99,7 @@ fn op_strat() -> BoxedStrategy<Op> {
 }
 
 fn strat(_: &Ctx) -> BoxedStrategy<Case> {
-    (vec((op_strat(), proptest::bool::weighted(0.4), prop_oneof![3 => Just(0u8), 1 => Just(1u8), 1 => Just(2u8)]), 1..=8), any::<u64>())
+    (vec((op_strat(), proptest::bool::weighted(0.4), prop_oneof![3 => Just(0u8), 1 => Just(1u8), 1 => Just(2u8), 1 => Just(3u8)]), 1..=8), any::<u64>())
         .prop_map(|(ops, sched)| Case {
             ops: ops
                 .into_iter()
@@ -106,7 +107,7 @@ fn strat(_: &Ctx) -> BoxedStrategy<Case> {
                 .map(|(i, (mut o, ch, md))| {
                     o.chained = ch && i > 0;
                     if let Kind::Search { paged, mode, .. } = &mut o.kind {
-                        *mode = if md == 1 && paged.is_some() { 0 } else { md };
+                        *mode = if (md == 1 || md == 3) && paged.is_some() { 0 } else { md };
                     }
                     o
                 })
@@ -132,12 +133,34 @@ fn tok(i: usize, s: usize) -> String {
     format!("t{}-{}", i, s)
 }
 
+
+/// A user adapter that sets the search's timeout from inside its start() (documented as the one place where
+/// mutating the stream's Ldap handle affects the running operation).
+#[derive(Clone, Debug)]
+pub struct SetTimeout(pub Duration);
+impl ldap3::adapters::SoloMarker for SetTimeout {}
+
+#[async_trait::async_trait]
+impl<'a> Adapter<'a, &'a str, Vec<&'a str>> for SetTimeout {
+    async fn start(&mut self, stream: &mut ldap3::SearchStream<'a, &'a str, Vec<&'a str>>, base: &str, scope: Scope, filter: &str, attrs: Vec<&'a str>) -> ldap3::result::Result<()> {
+        stream.ldap_handle().with_timeout(self.0);
+        stream.start(base, scope, filter, attrs).await
+    }
+    async fn next(&mut self, stream: &mut ldap3::SearchStream<'a, &'a str, Vec<&'a str>>) -> ldap3::result::Result<Option<ldap3::ResultEntry>> {
+        stream.next().await
+    }
+    async fn finish(&mut self, stream: &mut ldap3::SearchStream<'a, &'a str, Vec<&'a str>>) -> ldap3::LdapResult {
+        stream.finish().await
+    }
+}
+
 async fn run_op(ldap: &mut ldap3::Ldap, i: usize, op: &Op, t0: Instant) -> OpObs {
     let mk = simops::marker(i);
     let mut o = OpObs::default();
     let started = Instant::now();
     o.t_start_ms = (started - t0).as_millis() as u64;
-    if let Some(t) = op.timeout_ms {
+    let via_adapter = matches!(&op.kind, Kind::Search { mode: 3, .. }) && op.timeout_ms.is_some();
+    if let (Some(t), false) = (op.timeout_ms, via_adapter) {
         ldap.with_timeout(dur(t));
     }
     match &op.kind {
@@ -173,7 +196,16 @@ async fn run_op(ldap: &mut ldap3::Ldap, i: usize, op: &Op, t0: Instant) -> OpObs
         }
         Kind::Search { adapted, paged, mode, .. } => {
             let attrs = vec!["a"];
-            let s = match (paged.is_some(), *adapted) {
+            let s = if via_adapter {
+                let t = SetTimeout(dur(op.timeout_ms.unwrap()));
+                if *adapted {
+                    let ad: Vec<Box<dyn Adapter<_, _>>> = vec![Box::new(t), Box::new(EntriesOnly::new())];
+                    ldap.streaming_search_with(ad, &mk, Scope::Subtree, "(a=b)", attrs).await
+                } else {
+                    ldap.streaming_search_with(t, &mk, Scope::Subtree, "(a=b)", attrs).await
+                }
+            } else {
+            match (paged.is_some(), *adapted) {
                 (false, true) => ldap.streaming_search_with(EntriesOnly::new(), &mk, Scope::Subtree, "(a=b)", attrs).await,
                 (false, false) => ldap.streaming_search(&mk, Scope::Subtree, "(a=b)", attrs).await,
                 (true, false) => ldap.streaming_search_with(PagedResults::new(7), &mk, Scope::Subtree, "(a=b)", attrs).await,
@@ -181,6 +213,7 @@ async fn run_op(ldap: &mut ldap3::Ldap, i: usize, op: &Op, t0: Instant) -> OpObs
                     let ad: Vec<Box<dyn Adapter<_, _>>> = vec![Box::new(EntriesOnly::new()), Box::new(PagedResults::new(7))];
                     ldap.streaming_search_with(ad, &mk, Scope::Subtree, "(a=b)", attrs).await
                 }
+            }
             };
             match s {
                 Ok(mut s) => {
@@ -524,11 +557,15 @@ pub struct QCase {
     pub unblock_after_ms: u64,
     pub search: bool,
     pub sched: u64,
+    /// (with `search`) a PagedResults search whose first page is served normally; the socket blocks before the
+    /// request for the second page, which must then time out like any other operation
+    #[serde(default)]
+    pub paged: bool,
 }
 
 fn q_strat(_: &Ctx) -> BoxedStrategy<QCase> {
-    (prop_oneof![3 => 0u8..8, 2 => 8u8..40, 2 => 40u8..90], prop_oneof![5u64..300, 300u64..3000], 1u64..5000, any::<bool>(), any::<u64>())
-        .prop_map(|(queued, timeout_ms, unblock_after_ms, search, sched)| QCase { queued, timeout_ms, unblock_after_ms, search, sched })
+    (prop_oneof![3 => 0u8..8, 2 => 8u8..40, 2 => 40u8..90], prop_oneof![5u64..300, 300u64..3000], 1u64..5000, any::<bool>(), any::<u64>(), any::<bool>())
+        .prop_map(|(queued, timeout_ms, unblock_after_ms, search, sched, paged)| QCase { queued, timeout_ms, unblock_after_ms, search, sched, paged: paged && search })
         .boxed()
 }
 
@@ -538,8 +575,10 @@ pub fn check_q(c: &QCase, obs: &mut Obs) -> Result<(), Fail> {
         let conn = sim::connect();
         let wire = conn.wire.clone();
         let w2 = wire.clone();
+        let paged_case = cc.paged;
         let srv = tokio::spawn(async move {
             // answers everything at once, as soon as it can be read
+            let mut first_page_served = false;
             loop {
                 match w2.recv().await {
                     Recv::Msg(Ok(m), _, _) => {
@@ -547,7 +586,14 @@ pub fn check_q(c: &QCase, obs: &mut Obs) -> Result<(), Fail> {
                             if tag == 5 {
                                 w2.push(&RespMsg::new(m.id, Resp::Entry(Entry::simple("cn=late"))).encode());
                             }
-                            w2.push(&RespMsg::new(m.id, Resp::result(tag, Res::ok("answered"))).encode());
+                            let first_page = paged_case && tag == 5 && !first_page_served;
+                            if first_page {
+                                first_page_served = true;
+                                let ctl = RCtl { oid: "1.2.840.113556.1.4.319".into(), crit: CritForm::Absent, val: Some(ber::encode(&Tlv::seq(vec![Tlv::int(0), Tlv::octets(b"more".to_vec())]))) };
+                                w2.push(&RespMsg { id: m.id, resp: Resp::result(5, Res::ok("page")), ctrls: Some(vec![ctl]) }.encode());
+                            } else {
+                                w2.push(&RespMsg::new(m.id, Resp::result(tag, Res::ok("answered"))).encode());
+                            }
                         }
                     }
                     Recv::Closed | Recv::Garbage(_) => break,
@@ -555,6 +601,19 @@ pub fn check_q(c: &QCase, obs: &mut Obs) -> Result<(), Fail> {
                 }
             }
         });
+        // paged variant: the first page is fetched while the socket still works
+        let mut paged_stream = None;
+        let mut ldap = conn.ldap.clone();
+        if cc.paged {
+            ldap.with_timeout(Duration::from_millis(cc.timeout_ms));
+            match ldap.streaming_search_with(PagedResults::new(5), &simops::marker(200), Scope::Subtree, "(a=b)", vec!["a"]).await {
+                Ok(mut s) => match s.next().await {
+                    Ok(Some(_)) => paged_stream = Some(s),
+                    other => return (format!("first-page:{:?}", other.map(|o| o.is_some()).map_err(|e| err_kind(&e))), 0, vec![], String::new(), vec![], (0, 0), sim::DriveEnd::Ok),
+                },
+                Err(e) => return (format!("first-page-start:{}", err_kind(&e)), 0, vec![], String::new(), vec![], (0, 0), sim::DriveEnd::Ok),
+            }
+        }
         wire.block_writes(true);
         let mut queued = Vec::new();
         for i in 0..cc.queued {
@@ -562,11 +621,19 @@ pub fn check_q(c: &QCase, obs: &mut Obs) -> Result<(), Fail> {
             queued.push(tokio::spawn(async move { l.delete(&simops::marker(i as usize)).await.map(|r| r.text).map_err(|e| err_kind(&e)) }));
         }
         quiesce().await;
-        let mut ldap = conn.ldap.clone();
         let started = Instant::now();
         ldap.with_timeout(Duration::from_millis(cc.timeout_ms));
         let mk = simops::marker(200);
-        let end = if cc.search {
+        let end = if let Some(mut s) = paged_stream {
+            // the page result is already here; this call has to ask for the next page, which cannot be written
+            let r = match s.next().await {
+                Ok(Some(_)) => "item".to_string(),
+                Ok(None) => "end".to_string(),
+                Err(e) => err_kind(&e),
+            };
+            let _ = s.finish().await;
+            r
+        } else if cc.search {
             match ldap.streaming_search(&mk, Scope::Subtree, "(a=b)", vec!["a"]).await {
                 Err(e) => format!("start:{}", err_kind(&e)),
                 Ok(mut s) => {
@@ -633,6 +700,9 @@ pub fn check_q(c: &QCase, obs: &mut Obs) -> Result<(), Fail> {
     ensure!(others.iter().all(|o| o == "answered"), "c12:connection-lost", "operations queued behind the blocked socket ended with {:?} after it became writable again", others);
     ensure!(later == "answered", "c12:later-op", "an operation after the timeout ended with {:?}", later);
     ensure!(in_use.is_empty() && g == (0, 0), "c12:id-not-released", "at the end ids {:?} are reserved and the driver holds {:?} routing entries", in_use, g);
+    if c.paged {
+        obs.label("paged-follow-up-request-blocked");
+    }
     obs.label(if c.queued >= 32 { "queued>=32" } else if c.queued > 0 { "queued<32" } else { "only-the-timed-request-blocked" });
     if c.queued > 0 {
         obs.nontrivial((c.queued, c.timeout_ms, c.unblock_after_ms, c.search));
@@ -644,7 +714,7 @@ pub fn property() -> Property {
     Property {
         id: "C12",
         level: "exploration",
-        rule: "generated histories of 1-8 operations over the paused virtual clock, concurrent on cloned handles or chained on one handle (40%: the next operation reuses the handle of the previous one, so a timed-out operation is followed by timed and untimed ones on the same handle): single-result operations and direct/EntriesOnly/PagedResults/[EntriesOnly,PagedResults] searches (paged ones with generated page ends, each answered by a follow-up request under a fresh id), each optionally timed (3 ms .. 1 day, and practically infinite values up to Duration::MAX under which the response must still be returned), started at generated instants; scripted response arrival clearly before the deadline (<= T-2 ms), clearly after it (late reply, >= T+2 ms) or never; searches with per-item gaps below or above the timeout. Oracle (exact to Tokio's 1 ms timer granularity): a timed operation returns Timeout at start+T if nothing arrived, else its own response at the arrival instant; a search's deadline restarts at every next() call, so it times out at the first gap > T and not otherwise however long the whole search takes; every other operation completes with its own tokens; late replies are seen by nobody; the driver survives; at quiescence no id is reserved and each timed-out id is handed out again by the allocator and works for the operation that gets it. Lane blocked-writer: 0-89 untimed operations queued at a driver that is stuck writing (send buffer full), then a timed operation or search start: it must time out exactly at its deadline, the queued operations complete once the socket drains, a later operation works and nothing stays reserved. Non-trivial: an operation times out while another is outstanding and later completes, or a late reply is scripted. Distinct = debug rendering of the operations.",
+        rule: "generated histories of 1-8 operations over the paused virtual clock, concurrent on cloned handles or chained on one handle (40%: the next operation reuses the handle of the previous one, so a timed-out operation is followed by timed and untimed ones on the same handle): single-result operations and direct/EntriesOnly/PagedResults/[EntriesOnly,PagedResults] searches (paged ones with generated page ends, each answered by a follow-up request under a fresh id), each optionally timed (3 ms .. 1 day, and practically infinite values up to Duration::MAX under which the response must still be returned), started at generated instants; scripted response arrival clearly before the deadline (<= T-2 ms), clearly after it (late reply, >= T+2 ms) or never; searches with per-item gaps below or above the timeout. Oracle (exact to Tokio's 1 ms timer granularity): a timed operation returns Timeout at start+T if nothing arrived, else its own response at the arrival instant; a search's deadline restarts at every next() call, so it times out at the first gap > T and not otherwise however long the whole search takes; every other operation completes with its own tokens; late replies are seen by nobody; the driver survives; at quiescence no id is reserved and each timed-out id is handed out again by the allocator and works for the operation that gets it. Lane blocked-writer: 0-89 untimed operations queued at a driver that is stuck writing (send buffer full), then a timed operation, a search start or the follow-up page request of a PagedResults search: it must time out exactly at its deadline, the queued operations complete once the socket drains, a later operation works and nothing stays reserved. Non-trivial: an operation times out while another is outstanding and later completes, or a late reply is scripted. Distinct = debug rendering of the operations.",
         assumptions: &["no ties: |arrival - deadline| >= 2 ms", "tokio paused clock: virtual time advances only when every task is idle"],
         lanes: vec![
             Box::new(PLane { name: "timeouts", cases: |t| t.pick(2_000, 30_000), strat, check }),
